@@ -9,6 +9,7 @@ import TSSVerif.Driver.Translate
 import TSSVerif.Driver.Orch
 import TSSVerif.Driver.Disc
 import TSSVerif.Driver.Net
+import TSSVerif.Driver.Dkg
 /-!
 Line-protocol driver: one operation per input line, one answer per output line. Imports `Model/`
 and `Driver/` only (core Lean), so it links as a native executable; the definitions it runs are the
@@ -22,6 +23,7 @@ structure DState where
   boxc : Option BoxCD := none
   orch : OrchD := {}
   disc : DiscD := {}
+  dkg : DkgD := {}
 
 def step (st : DState) (line : String) : DState × String :=
   let toks := (line.splitOn " ").filter (· ≠ "")
@@ -34,6 +36,10 @@ def step (st : DState) (line : String) : DState × String :=
   | "ds" :: rest =>
     match discOp st.disc rest with
     | some (d, o) => ({ st with disc := d }, o)
+    | none => (st, "bad-op")
+  | "dkg" :: rest =>
+    match dkgOp st.dkg rest with
+    | some (d, o) => ({ st with dkg := d }, o)
     | none => (st, "bad-op")
   | "net" :: rest => (st, (netOp rest).getD "bad-op")
   | "tr" :: rest => (st, (trOp rest).getD "bad-op")
